@@ -9,9 +9,9 @@ class ExprDynamicModel(ExprModel):
     '''Base class for expressions that must be computed dynamically'''
     
     def __init__(self):
+        super().__init__()
         self.cached_expr = None
         self.cached_node = None
-        pass
    
     def reset(self):
         self.cached_expr = None
